@@ -308,16 +308,12 @@ PROPS["C02"] = {
                     "common::now stubbed; alloc::fmt::format stubbed"],
     "groups": [
         {"mounts": [("c02_join.rs", "co_pool/mod.rs")], "subs": _C02_SUBS, "cfgs": ["ocv_small"],
-         "harnesses": ["c02_join_returns_own_result", "c02_completion_at_point_0", "c02_completion_at_point_1", "c02_completion_at_point_2",
-                       "c02_completion_at_point_3", "c02_completion_at_point_4", "c02_completion_at_point_5", "c02_completion_at_point_6",
-                       "c02_completion_at_point_7", "c02_completion_while_blocked",
-                       "c02_result_reaches_the_waiter_whichever_pool_ran_the_task"],
-         "timeout": 1200, "jobs": 4, "mem_gb": 14},
+         "harnesses": ['c02_join_returns_own_result', 'c02_completion_at_point_0', 'c02_completion_at_point_1', 'c02_completion_at_point_2', 'c02_completion_at_point_3', 'c02_completion_at_point_4', 'c02_completion_at_point_5', 'c02_completion_at_point_6', 'c02_completion_at_point_7', 'c02_completion_while_blocked', 'c02_result_reaches_the_waiter_whichever_pool_ran_the_task'],
+         "thorough_harnesses": ['c02_completion_at_point_8', 'c02_completion_at_point_9', 'c02_completion_at_point_10', 'c02_completion_at_point_11', 'c02_completion_at_point_12', 'c02_completion_at_point_13', 'c02_completion_at_point_14', 'c02_completion_at_point_15', 'c02_completion_at_point_16', 'c02_completion_at_point_17', 'c02_completion_at_point_18', 'c02_completion_at_point_19', 'c02_completion_at_point_20', 'c02_completion_at_point_21', 'c02_completion_at_point_22', 'c02_completion_at_point_23'],
+         "timeout": 1500, "timeout_thorough": 3000, "jobs": 4, "mem_gb": 24},
     ],
 }
 
-PROPS["CXX"] = {"functions": [], "bounds": "", "outside": "", "assumptions": [], "groups": [
-    {"mounts": [("c02_min.rs", "co_pool/mod.rs")], "subs": _C02_SUBS, "harnesses": ["c12_lifecycle_only_moves_forward"], "timeout": 600}]}
 PROPS["C12"] = {
     "functions": ["co_pool::state::{stopping,stopped,change_state}", "CoroutinePool::{submit_task,do_clean,wait_task_result,notify,size}"],
     "bounds": "arbitrary pool state, 3 symbolic lifecycle requests; one submission from an arbitrary state; one waiter (any non-zero task id) "
@@ -355,8 +351,8 @@ PROPS["C13"] = {
     "assumptions": ["E5 verif_sync Mutex/Condvar model", "queue beans pre-created small; model crates"],
     "groups": [
         {"mounts": [("c02_join.rs", "co_pool/mod.rs")], "subs": _C02_SUBS, "cfgs": ["ocv_small"],
-         "harnesses": ["c13_cancel_before_start_affects_only_that_task", "c13_waiter_of_a_cancelled_task_is_not_left_blocked"],
-         "timeout": 1200, "jobs": 2, "mem_gb": 14},
+         "harnesses": ["c13_cancel_first_queued_task", "c13_cancel_second_queued_task", "c13_waiter_of_a_cancelled_task_is_not_left_blocked"],
+         "timeout": 1500, "jobs": 3, "mem_gb": 20},
     ],
 }
 
@@ -497,7 +493,7 @@ PROPS["C07"]["groups"].append({
 # Properties claimed in MANIFEST.json: their quick checks were run from the committed tree on the unchanged
 # repository and are quiet. The other entries above are development harnesses (runnable through bin/check,
 # not claimed; reasons in not_applicable.py).
-CLAIMED = ["C03", "C07", "C08", "C09", "C12", "C14", "C16", "C17", "C18", "C19", "C20", "C21", "C23", "C25", "C26", "C28"]
+CLAIMED = ["C02", "C03", "C07", "C08", "C09", "C12", "C13", "C14", "C16", "C17", "C18", "C19", "C20", "C21", "C23", "C25", "C26", "C28"]
 
 
 # Coroutine / pool harness groups: listener calls are `dyn Listener`; without vtable restriction CBMC takes the coroutine's own
